@@ -3,6 +3,7 @@ package main
 // Property checks: obligations of all functions tagged with a property, known findings, evidence, exit code.
 
 import (
+	"regexp"
 	"bufio"
 	"encoding/json"
 	"fmt"
@@ -23,6 +24,8 @@ type PropMeta struct {
 	Lemmas      []string `json:"lemmas"`
 	Bounded     []string `json:"bounded"` // names of bounded stand-in tests (run in thorough, and for unsupported functions)
 }
+
+var propLabelRe = regexp.MustCompile(`[:.](C[0-9][0-9])_`)
 
 type KnownFinding struct {
 	Property   string `json:"property"`
@@ -228,6 +231,11 @@ func cmdCheck(args []string) int {
 	toolErrors := []string{}
 	vacuity := map[string][]string{}
 	for _, r := range res {
+		// a clause label that starts with a property id (`@C04_...`) belongs to that property only, even when the
+		// function is tagged with several
+		if m := propLabelRe.FindStringSubmatch(r.O.Name); m != nil && m[1] != prop {
+			continue
+		}
 		solverSecs += r.R.Secs
 		if r.O.Vacuity {
 			vacuity[r.O.Name] = append(vacuity[r.O.Name], r.R.Status)
@@ -374,8 +382,19 @@ func cmdCheck(args []string) int {
 		fmt.Printf("VIOLATION property=%s replay=%s\n", prop, bv)
 		exit = 1
 	}
+	var knownNotes []string
 	for _, k := range knownHit {
 		fmt.Printf("KNOWN-FINDING: property=%s %s (%s)\n", prop, k.What, k.Obligation)
+		if tier == "thorough" {
+			// re-confirm the recorded finding on the real code
+			hit, out := replayOnRealCode(eng, prop, k.Obligation, nil, map[string]any{})
+			note := fmt.Sprintf("%s: replay on the real code reproduces=%v", k.Obligation, hit)
+			if !hit {
+				note += " (" + trunc(out, 300) + ")"
+			}
+			knownNotes = append(knownNotes, note)
+			fmt.Println("  " + note)
+		}
 	}
 	for _, d := range degraded {
 		fmt.Printf("DEGRADED: %s -- not counted as proved; bounded stand-in used\n", d)
@@ -442,6 +461,7 @@ func cmdCheck(args []string) int {
 		"degraded_functions":       degraded,
 		"failed_obligations":       failedNames,
 		"known_findings_hit":       len(knownHit),
+		"known_findings_replayed":  knownNotes,
 		"unmodelled":               warnings,
 		"not_decided":              pm.NotDecided,
 		"samples":                  samples,
